@@ -21,7 +21,16 @@ def new (mag p d : F) : Geonum F := ⟨mag, Angle.new p d⟩
 def newWithAngle (mag : F) (angle : Angle F) : Geonum F := ⟨mag, angle⟩
 /-- `Geonum::new_from_cartesian` (geonum_mod.rs:59) -/
 def newFromCartesian (x y : F) : Geonum F :=
-  ⟨sqrt (fadd (fmul x x) (fmul y y)), Angle.newFromCartesian x y⟩
+  let sumOfSquares := fadd (fmul x x) (fmul y y)
+  -- the squares overflow / lose their digits at extreme scales: rescale by the larger component exactly when the sum is not normal
+  let scale := fmax (fabs x) (fabs y)
+  let mag :=
+    if isNormal sumOfSquares || feq scale zero || !(isFinite scale) then sqrt sumOfSquares
+    else
+      let u := fdiv x scale
+      let v := fdiv y scale
+      fmul scale (sqrt (fadd (fmul u u) (fmul v v)))
+  ⟨mag, Angle.newFromCartesian x y⟩
 /-- `Geonum::new_with_blade` (geonum_mod.rs:80) -/
 def newWithBlade (mag : F) (blade : Nat) (p d : F) : Geonum F := ⟨mag, Angle.newWithBlade blade p d⟩
 /-- `Geonum::create_dimension` (geonum_mod.rs:95) -/
